@@ -76,6 +76,7 @@ type State struct {
 	subst   map[string]*Term
 	names   map[string]Value // source-level local names (from DebugRef)
 	cuts    map[string]bool
+	subMemo map[*Term]*Term
 	visits  map[*ssa.BasicBlock]int // symbolic forks per block on this path (loops without invariant)
 	weak    map[string]bool
 	inLoop  map[*ssa.BasicBlock]bool
@@ -123,7 +124,7 @@ func (s *State) fork() *State {
 }
 
 func (s *State) assume(t *Term) {
-	t = substitute(t, s.subst)
+	t = s.sub(t)
 	if t.IsConst() && t.Val.Sign() != 0 {
 		return
 	}
@@ -179,9 +180,21 @@ func (s *State) assume(t *Term) {
 	s.hyps = append(s.hyps, t)
 }
 
+// sub applies the state's rewrite rules (memoised until the rule set changes).
+func (s *State) sub(t *Term) *Term {
+	if len(s.subst) == 0 {
+		return t
+	}
+	if s.subMemo == nil {
+		s.subMemo = map[*Term]*Term{}
+	}
+	return substituteMemo(t, s.subst, s.subMemo)
+}
+
 // addSubst records the rewrite rule lhs -> rhs and keeps the rule set resolved.
 func (s *State) addSubst(lhs, rhs *Term) {
-	rhs = substitute(rhs, s.subst)
+	s.subMemo = nil
+	rhs = s.sub(rhs)
 	one := map[string]*Term{lhs.Key(): rhs}
 	for k, v := range s.subst {
 		nv := substitute(v, one)
@@ -351,7 +364,7 @@ func (e *Engine) loadPath(st *State, r *Region, path []int, t types.Type) Value 
 		e.fail("load from uninitialised cell %s%s (region %s)", r.name, pathName(r.typ, path), r.name)
 	}
 	if tv, ok := v.(*Term); ok && len(st.subst) > 0 {
-		return substitute(tv, st.subst)
+		return st.sub(tv)
 	}
 	return v
 }
@@ -486,7 +499,7 @@ func (e *Engine) sliceElemStore(st *State, s *SliceVal, k *Term, v *Term) {
 // ---------------------------------------------------------------------------- obligations
 
 func (e *Engine) addObligation(st *State, fr *Frame, kind, label string, goal *Term, text string) {
-	goal = substitute(goal, st.subst)
+	goal = st.sub(goal)
 	if e.concrete {
 		if goal.IsConst() && goal.Val.Sign() == 0 {
 			e.fail("ground evaluation violates %s:%s (%s)", kind, label, text)
@@ -615,8 +628,54 @@ func expand01poly(t *Term) *Term {
 	return mkIte(mkEq(a, mkInt64(0)), substitute(t, map[string]*Term{a.Key(): mkInt64(0)}), substitute(t, map[string]*Term{a.Key(): mkInt64(1)}))
 }
 
+// forceLift: a polynomial over a single ite atom becomes an ite of polynomials (needed where the
+// consumer wants constants, e.g. masks and shift amounts).
+func forceLift(t *Term) *Term {
+	if t.Sort != SInt || t.IsConst() || t.Op == "ite" || t.Op == "var" {
+		return t
+	}
+	// find the ite atoms occurring (through polynomials, div, mod) in t
+	var ites []*Term
+	seen := map[string]bool{}
+	var find func(x *Term)
+	find = func(x *Term) {
+		switch x.Op {
+		case "ite":
+			if !seen[x.Key()] {
+				seen[x.Key()] = true
+				ites = append(ites, x)
+			}
+		case "poly":
+			for _, a := range x.P.Atoms() {
+				find(a)
+			}
+		case "div", "mod":
+			find(x.Args[0])
+		}
+	}
+	find(t)
+	if len(ites) != 1 || countLeaves(ites[0]) > 64 {
+		return t
+	}
+	a := ites[0]
+	var rec func(x *Term) *Term
+	rec = func(x *Term) *Term {
+		if x.Op == "ite" {
+			return mkIte(x.Args[0], rec(x.Args[1]), rec(x.Args[2]))
+		}
+		return substitute(t, map[string]*Term{a.Key(): x})
+	}
+	return rec(a)
+}
+
 func (e *Engine) bitOp(op token.Token, a, b *Term, typ types.Type) *Term {
-	a, b = expand01poly(a), expand01poly(b)
+	a, b = forceLift(expand01poly(a)), forceLift(expand01poly(b))
+	if a.Op == "ite" && countLeaves(a)*countLeaves(b) <= 64 {
+		return mkIte(a.Args[0], e.bitOp(op, a.Args[1], restrict(b, a.Args[0], true), typ), e.bitOp(op, a.Args[2], restrict(b, a.Args[0], false), typ))
+	}
+	if b.Op == "ite" && countLeaves(a)*countLeaves(b) <= 64 {
+		return mkIte(b.Args[0], e.bitOp(op, restrict(a, b.Args[0], true), b.Args[1], typ), e.bitOp(op, restrict(a, b.Args[0], false), b.Args[2], typ))
+	}
 	w := bitWidth(typ)
 	all := new(big.Int).Sub(new(big.Int).Lsh(big1, uint(w)), big1)
 	return lift2(a, b, func(a, b *Term) *Term {
@@ -800,25 +859,19 @@ func bitUFFacts(ts []*Term) []*Term {
 
 func (e *Engine) shiftOp(op token.Token, a, b *Term, typ types.Type) *Term {
 	if !b.IsConst() {
-		// symbolic shift amount with a small known range: case analysis
+		// symbolic shift amount: exact case analysis over 0..width-1; larger amounts give 0
+		w := bitWidth(typ)
+		if op == token.SHR && isSigned(typ) {
+			e.fail("arithmetic shift by a symbolic amount")
+		}
+		res := mkInt64(0)
 		lo, hi := rangeOf(b)
-		if b.Op == "ite" || lo == nil || hi == nil || lo.Sign() < 0 || hi.Cmp(big.NewInt(64)) > 0 {
-			if lo == nil || hi == nil || lo.Sign() < 0 || hi.Cmp(big.NewInt(255)) > 0 {
-				e.fail("shift by non-constant amount without small range")
+		for k := int64(w - 1); k >= 0; k-- {
+			if lo != nil && hi != nil && (big.NewInt(k).Cmp(lo) < 0 || big.NewInt(k).Cmp(hi) > 0) {
+				continue
 			}
-		}
-		top := hi.Int64()
-		if top > 64 {
-			top = 64
-		}
-		var res *Term
-		for k := top; k >= lo.Int64(); k-- {
 			v := e.shiftOp(op, a, mkInt64(k), typ)
-			if res == nil {
-				res = v
-			} else {
-				res = mkIte(mkEq(b, mkInt64(k)), v, res)
-			}
+			res = mkIte(mkEq(b, mkInt64(k)), v, res)
 		}
 		return res
 	}
@@ -1150,7 +1203,7 @@ func (e *Engine) execFrom(st *State, fr *Frame, b *ssa.BasicBlock, prev *ssa.Bas
 			switch in := in.(type) {
 			case *ssa.If:
 				c := e.get(fr, in.Cond).(*Term)
-				c = substitute(c, st.subst)
+				c = st.sub(c)
 				if c.IsConst() {
 					nb := b.Succs[1]
 					if c.Val.Sign() != 0 {
@@ -1256,6 +1309,7 @@ func (e *Engine) execInstr(st *State, fr *Frame, in ssa.Instruction) {
 	case *ssa.Alloc:
 		t := in.Type().(*types.Pointer).Elem()
 		r := e.newRegion(fr.fn.Name()+"."+in.Comment+fmt.Sprintf("#%d", e.regionN+1), t, true)
+		r.created = st.epoch + 1
 		e.initRegionZero(st, r)
 		fr.vals[in] = &PtrVal{reg: r, typ: in.Type()}
 	case *ssa.BinOp:
@@ -1375,6 +1429,7 @@ func (e *Engine) convert(st *State, x Value, from, to types.Type) Value {
 func (e *Engine) bytesOfString(st *State, s string, elem types.Type) *SliceVal {
 	at := types.NewArray(elem, int64(len(s)))
 	r := e.newRegion(fmt.Sprintf("bytes(%q)", trunc(s, 24)), at, true)
+	r.created = st.epoch + 1
 	for i := 0; i < len(s); i++ {
 		st.mem.cells[pathKey(r.id, []int{i})] = mkInt64(int64(s[i]))
 	}
@@ -1434,7 +1489,7 @@ type windowInfo struct {
 
 func (e *Engine) indexAddr(st *State, fr *Frame, in *ssa.IndexAddr) Value {
 	idx := e.get(fr, in.Index).(*Term)
-	idx = substitute(idx, st.subst)
+	idx = st.sub(idx)
 	switch x := e.get(fr, in.X).(type) {
 	case *PtrVal:
 		at := underlying(x.typ.(*types.Pointer).Elem()).(*types.Array)
@@ -1558,6 +1613,7 @@ func (e *Engine) makeSlice(st *State, fr *Frame, in *ssa.MakeSlice) Value {
 	if c.IsConst() && c.Val.Int64() <= 4096 {
 		at := types.NewArray(elem, c.Val.Int64())
 		r := e.newRegion(fr.fn.Name()+".make#"+fmt.Sprint(e.regionN+1), at, true)
+		r.created = st.epoch + 1
 		e.initRegionZero(st, r)
 		return &SliceVal{reg: r, off: mkInt64(0), length: n, capacity: c, elem: elem, backingN: c.Val.Int64()}
 	}
@@ -1565,6 +1621,7 @@ func (e *Engine) makeSlice(st *State, fr *Frame, in *ssa.MakeSlice) Value {
 		e.fail("make of symbolic-length slice of non-scalars in %s", fr.fn)
 	}
 	r := e.newRegion(fr.fn.Name()+".make#"+fmt.Sprint(e.regionN+1), elem, true)
+	r.created = st.epoch + 1
 	r.dyn = true
 	r.dynLen = c
 	st.mem.cells[pathKey(r.id, nil)] = mkApp("zeroarr", SArr)
